@@ -2,6 +2,7 @@ SPECIFICATION Spec
 CONSTANTS
   CountGt = TRUE
   MaxLen = 5
+  CheckAll = TRUE
   MaxDepth = 3
 INVARIANT DocumentedDesugaringAgrees
 POSTCONDITION Post
